@@ -18,6 +18,11 @@ Spec: spec/Conc.tla (+ MCConc.tla: small thread programs, all interleavings; Tra
    interleaving of the per-thread lists must be a behaviour of Conc with every logged result equal to F(args), the
    closure values an atomic count 0..n-1, balanced accounting at quiescence).  Every configuration is run many
    times; every run is validated.
+4. Shared StringBufs (spec/BufConc.tla, lib/checks/c12buf.py): the one lock-protected mutable host type of the default
+   runtime that scripts share between threads (through constants).  Probe schedules detect the locking discipline of
+   the code, TLC model-checks exactly that discipline at lock granularity (mutual exclusion, linearizability, no
+   deadlock; both address orders of the two buffers) and every behaviour of the small instances plus seeded walks is
+   imposed step by step on real threads calling one compiled package through cfg-guarded schedule points.
 """
 import copy
 import json
@@ -29,6 +34,7 @@ import time
 
 import vlib
 from vlib import Evidence, Verdicts, run_tlc, require_tlc_ok
+from checks import c12buf
 
 PID = "C12"
 
@@ -547,6 +553,9 @@ def run(tier):
     sample = record_and_validate(tier, ev, verd)
     if sample is not None and not verd.violations:
         binding_selftest(sample, ev)
+    # 4. the lock-protected host type scripts share between threads through constants (StringBuf): BufConc
+    c12buf.run_buf(tier, ev, verd)
+    vlib.log("C12 shared StringBufs (BufConc) done, t=%.1fs" % (time.time() - ev.t0))
     probes_s = [x for x in ev.samples if "probe" in x]
     ev.samples = probes_s[:2] + RUN_SAMPLES[:3]
     ev.extra["exhaustive_parts"] = parts + ["every case of the Register/context guards (kind x route x (send, sync)) as a rustc probe"]
@@ -572,6 +581,9 @@ def replay(path):
     obj = json.load(open(path))["replay"]
     verd = Verdicts(PID)
     ev = Evidence(PID, "replay")
+    if obj.get("part") == "bufconc":
+        c12buf.replay_buf(obj, verd)
+        return verd.finish()
     if "probe" in obj:
         cases = probe_cases(ev)
         n = obj["probe"]
